@@ -96,11 +96,13 @@ pub fn check(s: &Scenario) -> CheckResult {
                     (Some(a), None) => {
                         ensure!(unchanged(0), site("informed-side-changed"), "round {}: only side 1 has data; its own slot changed {:?} -> {:?}", ri, own_before[0], own_after[0]);
                         let want = if exact_invert { -a.value } else { a.value * ratio };
+                        ensure!(!matches!(own_after[1], Some(d) if d.time != a.time && bits_state(d.value, want)), site("implied-time"), "round {}: side 2 has no information and receives the implied value, but stamped {:?} instead of the contributing read's {:?}", ri, own_after[1].map(|d| d.time), a.time);
                         ensure!(matches!(own_after[1], Some(d) if d.time == a.time && bits_state(d.value, want)), site("implied-value"), "round {}: side 2 has no information and should receive {:?} stamped {:?} (ratio {}), got {:?}", ri, want, a.time, ratio, own_after[1]);
                     }
                     (None, Some(b)) => {
                         ensure!(unchanged(1), site("informed-side-changed"), "round {}: only side 2 has data; its own slot changed {:?} -> {:?}", ri, own_before[1], own_after[1]);
                         let want = if exact_invert { -b.value } else { b.value / ratio };
+                        ensure!(!matches!(own_after[0], Some(d) if d.time != b.time && bits_state(d.value, want)), site("implied-time"), "round {}: side 1 has no information and receives the implied value, but stamped {:?} instead of the contributing read's {:?}", ri, own_after[0].map(|d| d.time), b.time);
                         ensure!(matches!(own_after[0], Some(d) if d.time == b.time && bits_state(d.value, want)), site("implied-value"), "round {}: side 1 has no information and should receive {:?} stamped {:?} (ratio {}), got {:?}", ri, want, b.time, ratio, own_after[0]);
                     }
                     (Some(a), Some(b)) => {
@@ -198,6 +200,7 @@ pub fn check(s: &Scenario) -> CheckResult {
                                 1 => (1, sm.unwrap().value - s1.unwrap().value),
                                 _ => (2, s1.unwrap().value + s2.unwrap().value),
                             };
+                            ensure!(!matches!(own_after[target], Some(d) if d.time != t && bits_state(d.value, want)), site("recomputed-time"), "round {}: distrusted branch {} is recomputed correctly but stamped {:?}, the newest contributing read is {:?}", ri, target, own_after[target].map(|d| d.time), t);
                             ensure!(matches!(own_after[target], Some(d) if d.time == t && bits_state(d.value, want)), site("recomputed-branch"), "round {}: distrusted branch {} should be recomputed from the other two reads as {:?} stamped {:?}, got {:?}", ri, target, want, t, own_after[target]);
                             for i in 0..3 {
                                 if i != target {
